@@ -46,7 +46,45 @@ fn run_instr(name: &str, iargs: &[&str], args: &[P]) -> String {
     out
 }
 
+/// run a built-in method through the real `BuiltInFunction::run` (receiver and arguments on the operand stack)
+fn run_builtin(method: &str, args: &[P]) -> String {
+    use crate::function::BuiltInFunction as B;
+    let b = match method {
+        "to_int" => B::GenericToInt,
+        "to_bigint" => B::GenericToBigint,
+        "to_byte" => B::GenericToByte,
+        "to_float" => B::GenericToFloat,
+        "abs" => B::GenericAbs,
+        "sqrt" => B::GenericSqrt,
+        "pow" => B::GenericPow,
+        "powf" => B::GenericPowf,
+        "fpart" => B::FloatFPart,
+        "ipart" => B::FloatIPart,
+        "round" => B::FloatRound,
+        "floor" => B::FloatFloor,
+        "ceil" => B::FloatCeil,
+        "to_ascii" => B::ByteToAscii,
+        _ => panic!("builtin {method}"),
+    };
+    let function = Function::new(Weak::new(), "verif".to_string(), Box::new([]));
+    let stack = Rc::new(RefCell::new(Stack::new()));
+    let mut ctx = Ctx::new(&function, stack, Cow::Owned(vec![]), None);
+    for a in args {
+        ctx.push(a.clone());
+    }
+    let out = match b.run(&mut ctx) {
+        Err(_) => "ERR".to_string(),
+        Ok((Some(p), _)) => show(&p),
+        Ok((None, _)) => "OK Other none".to_string(),
+    };
+    std::mem::forget(ctx);
+    out
+}
+
 pub fn eval_ext(op: &str, args: &[P]) -> String {
+    if let Some(m) = op.strip_prefix("B:") {
+        return run_builtin(m, args);
+    }
     if let Some(sym) = op.strip_prefix("I:") {
         return match sym {
             "equals" => run_instr("equ", &[], args),
